@@ -37,6 +37,8 @@ type C02Case struct {
 	InitSelf  int         `json:"init_self"`
 	Senders   []C02Sender `json:"senders"`
 	Delayed   []C02Delay  `json:"delayed"`
+	// Meta: the receiver is a meta-process (addressed by its alias; its mailbox is unbounded)
+	Meta bool `json:"meta,omitempty"`
 }
 
 type c02 struct{}
@@ -70,6 +72,10 @@ func (c02) Generate(r *simkit.Rand, tier string) any {
 	}
 	c.Slow = r.Chance(0.6)
 	c.InitSelf = simkit.Pick(r, 0, 0, 1, 2)
+	if r.Chance(0.2) {
+		c.Meta = true
+		c.Mailbox, c.Fallback, c.InitSelf = 0, "", 0
+	}
 	ns := r.Range(2, 5)
 	maxOps := 6
 	if tier == "thorough" {
@@ -198,6 +204,10 @@ func (c02) Run(e *simkit.Env, cc any) {
 		return
 	}
 	defer simkit.StopNode(e, n, false, 0)
+	if c.Meta {
+		runC02Meta(e, n, c)
+		return
+	}
 
 	hd := &c02Handled{rcv: map[int]int{}, fb: map[int]int{}}
 	var rcvPID gen.PID
@@ -602,4 +612,153 @@ func (c02) Run(e *simkit.Env, cc any) {
 			return
 		}
 	}
+}
+
+
+// runC02Meta: the same conservation law with a meta-process as the receiver: every send or
+// request to its alias that reported success is handled exactly once, nothing else is handled,
+// and nothing stays queued at quiescence.
+func runC02Meta(e *simkit.Env, n gen.Node, c *C02Case) {
+	var mu sync.Mutex
+	handled := map[int]int{}
+	var bad []string
+	mh := &Hooks{Name: "meta", Env: e, Slow: c.Slow}
+	mh.MetaMessage = func(m *ProbeMeta, from gen.PID, msg any) error {
+		id, ok := msg.(int)
+		mu.Lock()
+		if ok {
+			handled[id]++
+		} else {
+			bad = append(bad, fmt.Sprintf("meta-process handled a message nobody sent: %#v from %v", msg, from))
+		}
+		mu.Unlock()
+		e.Logf("meta handled msg %v", msg)
+		return nil
+	}
+	mh.MetaCall = func(m *ProbeMeta, from gen.PID, ref gen.Ref, req any) (any, error) {
+		id, ok := req.(int)
+		mu.Lock()
+		if ok {
+			handled[id]++
+		} else {
+			bad = append(bad, fmt.Sprintf("meta-process handled a request nobody sent: %#v", req))
+		}
+		mu.Unlock()
+		e.Logf("meta handled call %v", req)
+		return id + 1000000, nil
+	}
+	pm := NewProbeMeta(mh)
+	var metaID gen.Alias
+	spawned := make(chan struct{})
+	oh := &Hooks{Name: "meta-owner", Env: e}
+	oh.Message = func(p *Probe, from gen.PID, m any) error {
+		if m == "spawn" {
+			id, err := p.SpawnMeta(pm, gen.MetaOptions{})
+			if err != nil {
+				e.Infra("SpawnMeta: " + err.Error())
+			}
+			metaID = id
+			close(spawned)
+		}
+		return nil
+	}
+	opid, err := n.Spawn(ProbeFactory(oh), gen.ProcessOptions{})
+	if err != nil {
+		e.Infra("spawn: " + err.Error())
+		return
+	}
+	n.Send(opid, "spawn")
+	if !e.WaitChan(spawned, time.Minute) {
+		e.Infra("meta owner did not start the meta-process")
+		return
+	}
+	e.Settle(time.Millisecond)
+	type res struct {
+		id    int
+		call  bool
+		err   error
+		reply any
+	}
+	var results []res
+	for si, sd := range c.Senders {
+		si, sd := si, sd
+		who := fmt.Sprintf("s%d", si)
+		run := func(p *Probe) {
+			for j, op := range sd.Ops {
+				id := (si+1)*100 + j
+				r := res{id: id}
+				switch {
+				case op.Mode == "call" && p != nil:
+					r.call = true
+					r.reply, r.err = p.CallWithTimeout(metaID, id, 5)
+				case p != nil:
+					r.err = p.SendWithPriority(metaID, id, prioOf(op.Prio))
+				default:
+					r.err = n.SendWithPriority(metaID, id, prioOf(op.Prio))
+				}
+				mu.Lock()
+				results = append(results, r)
+				mu.Unlock()
+				e.Logf("%s -> meta id=%d call=%v -> %v", who, id, r.call, r.err)
+			}
+		}
+		if !sd.Actor {
+			e.Go(who, func() { run(nil) })
+			continue
+		}
+		done := make(chan struct{})
+		sh := &Hooks{Name: who, Env: e}
+		sh.Message = func(p *Probe, from gen.PID, m any) error {
+			if m == "go" {
+				run(p)
+				close(done)
+			}
+			return nil
+		}
+		spid, err := n.Spawn(ProbeFactory(sh), gen.ProcessOptions{})
+		if err != nil {
+			e.Infra("spawn sender: " + err.Error())
+			return
+		}
+		e.Go(who+"-kick", func() {
+			n.Send(spid, "go")
+			e.WaitChan(done, 10*time.Minute)
+		})
+	}
+	if !e.WaitClients(20 * time.Minute) {
+		e.Fail("C02/sender-stuck", "a sender to the meta-process did not finish")
+		return
+	}
+	e.Settle(time.Minute)
+	mu.Lock()
+	defer mu.Unlock()
+	if len(bad) > 0 {
+		e.Fail("C02/handled-but-never-sent", "%s", bad[0])
+		return
+	}
+	for _, r := range results {
+		h := handled[r.id]
+		switch {
+		case r.err == nil && h != 1:
+			e.Fail("C02/accepted-not-handled", "meta-process receiver: id=%d (call=%v) reported success but was handled %d times", r.id, r.call, h)
+			return
+		case r.err != nil && !r.call && h != 0:
+			e.Fail("C02/refused-but-handled", "meta-process receiver: send id=%d returned %v but was handled %d times", r.id, r.err, h)
+			return
+		case r.call && r.err == nil && r.reply != r.id+1000000:
+			e.Fail("C02/wrong-reply", "meta-process receiver: call id=%d returned %v", r.id, r.reply)
+			return
+		case r.call && r.err != nil:
+			e.Fail("C02/accepted-not-handled", "meta-process receiver: call id=%d to the live meta-process failed: %v (handled %d times)", r.id, r.err, h)
+			return
+		}
+		e.Probe("send-while-receiver-running")
+	}
+	if mi, err := n.MetaInfo(metaID); err == nil {
+		if q := mi.MailboxQueues.Main + mi.MailboxQueues.System; q != 0 {
+			e.Fail("C02/lost-wakeup", "the meta-process has %d messages in its mailbox at quiescence", q)
+			return
+		}
+	}
+	e.Probe("meta-process-receiver")
 }
